@@ -175,7 +175,7 @@ class Verifier(object):
                 inst = Inst(c.self_class, module=module.name)
                 for fld, t in (c.self_fields or {}).items():
                     if fld in case:
-                        inst.fields[fld] = case[fld]
+                        inst.fields[fld] = self._case_value(m, case[fld], "self." + fld)
                     else:
                         inst.fields[fld] = fresh_of_type(m, t, "self." + fld)
                 env.set("self", inst)
@@ -289,7 +289,8 @@ class Verifier(object):
                             uses=opts.get("uses", c.uses_.get(name)))
         else:
             whens = [m.spec(when, fr.entry_env) for etype, when in c.raises_ if exc_isinstance(exc.etype, etype)]
-            allowed = any(exc_isinstance(exc.etype, et) for et, _ in c.may_raise_)
+            allowed = any((exc.etype == et[1:]) if et.startswith("=") else exc_isinstance(exc.etype, et)
+                          for et, _ in c.may_raise_)
             if whens:
                 path.oblige(m.oblname("raises/%s/only_when" % exc.etype), ops.disj(whens), kind="raises",
                             info={"origin": exc.origin}, assume_after=False)
